@@ -179,9 +179,14 @@ pub fn kvs_linearizability(seed: u64, worker: usize, slot: &Slot) {
                             let mut wb = WriteBatch::with_capacity(n);
                             let mut ws = Vec::new();
                             for k in ks {
-                                let id = next_id.fetch_add(1, Ordering::SeqCst);
-                                wb.put(&key(k), &value(id, 24));
-                                ws.push((k, Some(id)));
+                                if rng.chance(1, 5) {
+                                    wb.del(&key(k));
+                                    ws.push((k, None));
+                                } else {
+                                    let id = next_id.fetch_add(1, Ordering::SeqCst);
+                                    wb.put(&key(k), &value(id, 24));
+                                    ws.push((k, Some(id)));
+                                }
                             }
                             kvs.write(wb).unwrap_or_else(|e| violation("write-error", format!("{e}")));
                             LOp::Write(ws)
@@ -416,6 +421,275 @@ fn short(l: &[(Vec<u8>, Vec<u8>)]) -> Vec<(String, u64)> {
     l.iter()
         .map(|(k, v)| (String::from_utf8_lossy(k).to_string(), if v.len() >= 8 { value_id(v) } else { 0 }))
         .collect()
+}
+
+////////////////////////////////////// verifier alongside the store ///////////////////////////////
+
+/// C08 rider: writers, flush thread, compaction threads and a verifier thread running offline
+/// passes at the same time.  Each writer owns its keys, so the final value of every key is
+/// known; at the end every file the manifest lists exists and every key reads back.
+pub fn kvs_with_verifier(seed: u64, worker: usize, slot: &Slot) {
+    let mut rng = Rng::new(seed);
+    let dir = fresh_dir(worker, "kvsver");
+    let o: Vec<(&str, String)> = vec![
+        ("--memtable-size-bytes", rng.pick(&[0u64, 64]).to_string()),
+        ("--mani-log-rollover-ratio", rng.pick(&[0u64, 1]).to_string()),
+        ("--l0-mandatory-compaction-threshold-files", "2".into()),
+        ("--sst-cache-bytes", rng.pick(&[0u64, 65536]).to_string()),
+    ];
+    let opts = options(&dir, &o);
+    // record the bytes written to the store manifest: needed to recognise the known verifier
+    // defect F-C04-1 (a digest removed by two transactions) when a pass fails with NotFound
+    crate::fsx::install(&dir, None);
+    let kvs = Arc::new(KeyValueStore::open(opts.clone()).unwrap_or_else(|e| violation("open-error", format!("{e}"))));
+    let daemons = start_daemons(&kvs, rng.range(1, 2) as usize);
+    let n_w = rng.range(1, 2) as usize;
+    let finals: Arc<StdMutex<BTreeMap<Vec<u8>, Option<u64>>>> = Arc::new(StdMutex::new(BTreeMap::new()));
+    let mut handles = Vec::new();
+    for t in 0..n_w {
+        let kvs = Arc::clone(&kvs);
+        let finals = Arc::clone(&finals);
+        let mut rng = rng.fork();
+        let n = rng.range(4, 12);
+        handles.push(thread::spawn(move || {
+            for i in 0..n {
+                let k = vec![b'w', b'0' + t as u8, b'0' + rng.below(3) as u8];
+                let id = (t as u64) << 32 | i;
+                if rng.chance(1, 6) {
+                    kvs.del(&k).unwrap_or_else(|e| violation("del-error", format!("{e}")));
+                    finals.lock().unwrap().insert(k, None);
+                } else {
+                    kvs.put(&k, &value(id, 40)).unwrap_or_else(|e| violation("put-error", format!("{e}")));
+                    finals.lock().unwrap().insert(k, Some(id));
+                }
+            }
+        }));
+    }
+    let passes = Arc::new(AtomicU64::new(0));
+    let backoffs = Arc::new(AtomicU64::new(0));
+    let known_c04 = Arc::new(AtomicU64::new(0));
+    let verifier = {
+        let opts = opts.clone();
+        let known_c04 = Arc::clone(&known_c04);
+        let passes = Arc::clone(&passes);
+        let backoffs = Arc::clone(&backoffs);
+        let n = rng.range(1, 4);
+        thread::spawn(move || {
+            for _ in 0..n {
+                let mut v = match lsmtk::LsmVerifier::open(opts.clone()) {
+                    Ok(v) => v,
+                    Err(e) => violation("verifier-open-error", format!("{e}")),
+                };
+                match v.verify() {
+                    Ok(()) => {}
+                    Err(e) if lsmtk::error_code(&e) == Some(lsmtk::CODE_BACKOFF) => {
+                        backoffs.fetch_add(1, Ordering::SeqCst);
+                    }
+                    Err(e) => {
+                        let msg = format!("{e}");
+                        if removed_twice(&msg) {
+                            known_c04.fetch_add(1, Ordering::SeqCst);
+                            break;
+                        }
+                        violation(
+                            &format!("verifier-error:{}", crate::panic_class(&msg.chars().take(100).collect::<String>())),
+                            msg,
+                        )
+                    }
+                }
+                passes.fetch_add(1, Ordering::SeqCst);
+                thread::sleep(std::time::Duration::ZERO);
+            }
+        })
+    };
+    for h in handles {
+        if h.join().is_err() {
+            violation("client-panicked", "a writer panicked".into());
+        }
+    }
+    if verifier.join().is_err() {
+        violation("verifier-panicked", "the verifier thread panicked".into());
+    }
+    kvs.verif_wait_flush_idle();
+    let work = kvs.verif().work_done();
+    stop_daemons(&kvs, daemons, "");
+    // one last complete pass with the store quiescent, then judge
+    {
+        let mut v = lsmtk::LsmVerifier::open(opts.clone()).unwrap_or_else(|e| violation("verifier-open-error", format!("{e}")));
+        match v.verify() {
+            Ok(()) => {}
+            Err(e) if lsmtk::error_code(&e) == Some(lsmtk::CODE_BACKOFF) => {}
+            Err(e) => {
+                let msg = format!("{e}");
+                if removed_twice(&msg) {
+                    known_c04.fetch_add(1, Ordering::SeqCst);
+                } else {
+                    violation("verifier-error-after-quiescence", msg)
+                }
+            }
+        }
+    }
+    // every listed file exists
+    for l in kvs.verif_tree().verif_levels().iter() {
+        for f in l.iter() {
+            let p = dir.join("sst").join(format!("{}.sst", f.0.hexdigest()));
+            if !p.is_file() {
+                violation("listed-file-missing", format!("{} is listed by the live tree but not on disk", f.0.hexdigest()));
+            }
+        }
+    }
+    // every key reads back its final value
+    for (k, want) in finals.lock().unwrap().iter() {
+        let mut t = false;
+        let got = kvs.load(k, &mut t).unwrap_or_else(|e| violation("read-error-after-verifier-passes", format!("{e}")));
+        if got.as_deref().map(value_id) != *want {
+            dump_trace();
+            dump_levels(&kvs, &dir);
+            violation("contents-changed-under-verifier", format!("key {:?}: read {:?}, last write {:?}", String::from_utf8_lossy(k), got.as_deref().map(value_id), want));
+        }
+    }
+    let levels_before = kvs.verif_tree().verif_levels();
+    drop(kvs);
+    // and again after a reopen
+    let kvs = KeyValueStore::open(opts).unwrap_or_else(|e| violation("reopen-error-after-verifier-passes", format!("{e}")));
+    // Known recovery defect F-C01-1 (reported under C01): reopen puts two key-touching files with
+    // interleaved timestamp ranges that lived in different levels into one level, after which
+    // reads are unsound for a reason that has nothing to do with file removal.  Same structural
+    // diagnosis as storesim's exec.rs; the premise of the contents comparison is void then.
+    let misordered = recovery_merged_levels(&levels_before, &kvs.verif_tree().verif_levels());
+    for (k, want) in finals.lock().unwrap().iter() {
+        if misordered {
+            break;
+        }
+        let mut t = false;
+        let got = kvs.load(k, &mut t).unwrap_or_else(|e| violation("read-error-after-reopen", format!("{e}")));
+        if got.as_deref().map(value_id) != *want {
+            dump_levels(&kvs, &dir);
+            violation("contents-changed-after-verifier-and-reopen", format!("key {:?}: read {:?}, last write {:?}", String::from_utf8_lossy(k), got.as_deref().map(value_id), want));
+        }
+    }
+    let mut r = slot.lock().unwrap();
+    r.order_hash = rng::mix(&[seed, work, passes.load(Ordering::SeqCst), backoffs.load(Ordering::SeqCst)]);
+    r.nontrivial = work > 0 && passes.load(Ordering::SeqCst) > 0;
+    r.steps = work;
+    *r.probes.entry("verifier_passes_alongside_store".into()).or_insert(0) += passes.load(Ordering::SeqCst);
+    *r.probes.entry("verifier_backoffs_alongside_store".into()).or_insert(0) += backoffs.load(Ordering::SeqCst);
+    *r.probes.entry("background_work_units_alongside_verifier".into()).or_insert(0) += work;
+    *r.probes.entry("verifier_stopped_by_known_defect_F-C04-1".into()).or_insert(0) += known_c04.load(Ordering::SeqCst);
+    *r.probes.entry("reopen_comparison_void_known_defect_F-C01-1".into()).or_insert(0) += misordered as u64;
+    r.sample = Some(serde_json::json!({"writers": n_w, "options": o.iter().map(|(k, v)| format!("{k}={v}")).collect::<Vec<_>>()}));
+    drop(r);
+    drop(kvs);
+    let _ = crate::fsx::uninstall();
+    let _ = std::fs::remove_dir_all(&dir);
+}
+
+/// The verifier failed with NotFound on trash/<digest>.sst: did two store transactions remove
+/// that digest (known defect F-C04-1)?  Decided from the bytes written to mani/MANIFEST.
+type Levels = Vec<Vec<(setsum::Setsum, Vec<u8>, Vec<u8>, u64, u64, u64)>>;
+
+fn recovery_merged_levels(before: &Levels, after: &Levels) -> bool {
+    let mut level_of = std::collections::HashMap::new();
+    for (li, l) in before.iter().enumerate() {
+        for f in l.iter() {
+            level_of.insert(f.0.hexdigest(), li);
+        }
+    }
+    for (li, l) in after.iter().enumerate() {
+        for a in 0..l.len() {
+            for b in a + 1..l.len() {
+                let (fa, fb) = (&l[a], &l[b]);
+                let touch = fa.1 <= fb.2 && fb.1 <= fa.2;
+                let interleaved = fa.3 <= fb.4 && fb.3 <= fa.4;
+                let (oa, ob) = (level_of.get(&fa.0.hexdigest()), level_of.get(&fb.0.hexdigest()));
+                let lost_order = if li == 0 { !(oa == Some(&0) && ob == Some(&0)) } else { oa != ob };
+                if touch && interleaved && oa.is_some() && ob.is_some() && lost_order {
+                    return true;
+                }
+            }
+        }
+    }
+    false
+}
+
+fn dump_levels(kvs: &KeyValueStore, dir: &std::path::Path) {
+    use sst::Cursor;
+    if std::env::var("SCHEDSIM_VERBOSE").is_err() {
+        return;
+    }
+    for (i, l) in kvs.verif_tree().verif_levels().iter().enumerate() {
+        for f in l.iter() {
+            let p = dir.join("sst").join(format!("{}.sst", f.0.hexdigest()));
+            eprint!("L{i} {} [{}..{}] ts {}..{}:", &f.0.hexdigest()[..8], String::from_utf8_lossy(&f.1), String::from_utf8_lossy(&f.2), f.3, f.4);
+            if let Ok(t) = sst::Sst::<sst::file_manager::FileHandle>::new(sst::SstOptions::default(), &p) {
+                let mut c = t.cursor();
+                let _ = c.seek_to_first();
+                while c.next().is_ok() {
+                    match c.key_value() {
+                        Some(kv) => eprint!(" {}@{}{}", String::from_utf8_lossy(kv.key), kv.timestamp, if kv.value.is_none() { "(del)" } else { "" }),
+                        None => break,
+                    }
+                }
+            } else {
+                eprint!(" <unreadable>");
+            }
+            eprintln!();
+        }
+    }
+}
+
+fn dump_trace() {
+    if std::env::var("SCHEDSIM_VERBOSE").is_err() {
+        return;
+    }
+    let mut names: BTreeMap<u64, String> = BTreeMap::new();
+    for ev in crate::fsx::trace_since(0).iter() {
+        match ev {
+            crate::fsx::Ev::Open { h, path, created, .. } => {
+                names.insert(*h, path.clone());
+                if *created {
+                    eprintln!("create {path}");
+                }
+            }
+            crate::fsx::Ev::Write { h, data, .. } => {
+                let n = names.get(h).cloned().unwrap_or_default();
+                if n.contains("MANIFEST") {
+                    eprintln!("write {n}: {}", String::from_utf8_lossy(data).replace('\n', " | "));
+                } else {
+                    eprintln!("write {n}: {} bytes", data.len());
+                }
+            }
+            crate::fsx::Ev::Open { .. } | crate::fsx::Ev::Sync { .. } | crate::fsx::Ev::Mark(_) => {}
+            other => eprintln!("{other:?}"),
+        }
+    }
+}
+
+fn removed_twice(msg: &str) -> bool {
+    if !msg.contains("NotFound") {
+        return false;
+    }
+    let pos = match msg.find("/trash/") {
+        Some(p) => p,
+        None => return false,
+    };
+    let digest: String = msg[pos + 7..].chars().take(64).collect();
+    let needle = format!("-{digest}");
+    let mut handles = std::collections::BTreeSet::new();
+    let mut n = 0;
+    for ev in crate::fsx::trace_since(0).iter() {
+        match ev {
+            crate::fsx::Ev::Open { h, path, .. } if path == "mani/MANIFEST" => {
+                handles.insert(*h);
+            }
+            crate::fsx::Ev::Write { h, data, .. } if handles.contains(h) => {
+                let text = String::from_utf8_lossy(data);
+                n += text.matches(&needle).count();
+            }
+            _ => {}
+        }
+    }
+    n >= 2
 }
 
 /////////////////////////////////////////////// liveness ///////////////////////////////////////////
